@@ -722,11 +722,67 @@ func (m *Machine) sprintf(format value, args []value) value {
 	if !ok {
 		panic(unsupported{"symbolic format string"})
 	}
-	nat := make([]interface{}, len(args))
-	for i, a := range args {
-		nat[i] = m.nativeArg(m.curFrame, a)
+	// symbolic strings are spliced in for plain %s / %v verbs (Dump builds its text this way);
+	// everything else is formatted natively, one verb at a time
+	hasSym := false
+	for _, a := range args {
+		if it, ok := a.(iface); ok {
+			if _, ss := it.v.(sstr); ss {
+				hasSym = true
+			}
+		}
 	}
-	return fmt.Sprintf(f, nat...)
+	if !hasSym {
+		nat := make([]interface{}, len(args))
+		for i, a := range args {
+			nat[i] = m.nativeArg(m.curFrame, a)
+		}
+		return fmt.Sprintf(f, nat...)
+	}
+	var out []value
+	emit := func(s string) {
+		out = append(out, strBytes(s)...)
+	}
+	argi := 0
+	for i := 0; i < len(f); {
+		if f[i] != '%' {
+			j := i
+			for j < len(f) && f[j] != '%' {
+				j++
+			}
+			emit(f[i:j])
+			i = j
+			continue
+		}
+		j := i + 1
+		for j < len(f) && strings.ContainsRune("+-# 0123456789.", rune(f[j])) {
+			j++
+		}
+		if j >= len(f) {
+			emit(f[i:])
+			break
+		}
+		verb := f[i : j+1]
+		i = j + 1
+		if verb == "%%" {
+			emit("%")
+			continue
+		}
+		if argi >= len(args) {
+			emit("%!" + verb[len(verb)-1:] + "(MISSING)")
+			continue
+		}
+		a := args[argi]
+		argi++
+		if it, ok := a.(iface); ok {
+			if ss, isS := it.v.(sstr); isS && (verb == "%s" || verb == "%v") {
+				out = append(out, ss.b...)
+				continue
+			}
+		}
+		emit(fmt.Sprintf(verb, m.nativeArg(m.curFrame, a)))
+	}
+	return mkStr(out)
 }
 
 func (m *Machine) sprint(args []value) value {
